@@ -28,14 +28,24 @@ def run(pkg, test, race=False, shards=(1, 16), timeout=(600, 3000), files=None):
 # ids listed in manifest_meta.CLAIMED are registered in MANIFEST.json.
 PROPS = {
     "C01": {"level": "exploration", "runs": [run("allocator", "TestVerif_C01", shards=(4, 16), files=["alloc", "shared"]),
-                                             run("controller", "TestVerif_C01", shards=(4, 16), files=["box", "shared"])]},
+                                             run("controller", "TestVerif_C01", shards=(4, 16), files=["box", "shared"])],
+            "thresholds": {"quick": {"step-checks-with-shared-address": 1500, "refused-sharing-attempts": 300, "quiescent-shared-addresses": 60, "histories": 3000}},
+            "assumptions": ["the box reproduces controller-runtime semantics that matter (per-reconciler queues with de-duplication, one worker each, error -> retry, reload key) and the API server's optimistic concurrency on status writes; MetalLB-internal map iteration order is not controlled, so a replay may take another but equally valid path", "the reference model of allocation rules is written from the property statements (harness/lib/allocmodel.go)"]},
     "C02": {"level": "exploration", "runs": [run("allocator", "TestVerif_C02", shards=(4, 16), files=["alloc", "shared"]),
-                                             run("controller", "TestVerif_C02", shards=(4, 16), files=["box", "shared"])]},
-    "C03": {"level": "exploration", "runs": [run("controller", "TestVerif_C03", shards=(4, 16), files=["box", "shared"])]},
+                                             run("controller", "TestVerif_C02", shards=(4, 16), files=["box", "shared"])],
+            "thresholds": {"quick": {"event:explicit-pool": 800, "event:explicit-addresses": 50, "event:pinned": 900, "event:unpinned": 1800, "event:autoassign-false-pool-had-free-address": 200, "placements-judged": 2500}},
+            "assumptions": ["the box reproduces controller-runtime semantics that matter (per-reconciler queues with de-duplication, one worker each, error -> retry, reload key) and the API server's optimistic concurrency on status writes; MetalLB-internal map iteration order is not controlled, so a replay may take another but equally valid path", "the reference model of allocation rules is written from the property statements (harness/lib/allocmodel.go)"]},
+    "C03": {"level": "exploration", "runs": [run("controller", "TestVerif_C03", shards=(4, 16), files=["box", "shared"])],
+            "thresholds": {"quick": {"innocent-service-windows": 3000, "innocent-service-windows-with-foreign-events": 2000, "resyncs-checked-for-zero-writes": 100}},
+            "assumptions": ["the box reproduces controller-runtime semantics that matter (per-reconciler queues with de-duplication, one worker each, error -> retry, reload key) and the API server's optimistic concurrency on status writes; MetalLB-internal map iteration order is not controlled, so a replay may take another but equally valid path", "the reference model of allocation rules is written from the property statements (harness/lib/allocmodel.go)"]},
     "C04": {"level": "exploration", "runs": [run("speaker", "TestVerif_C04", shards=(4, 16), files=["c04", "direct", "shared"])]},
     "C05": {"level": "exploration", "runs": [run("speaker", "TestVerif_C05", shards=(4, 16), files=["sbox", "shared"])]},
-    "C06": {"level": "fault_enumeration", "runs": [run("controller", "TestVerif_C06", shards=(4, 16), files=["box", "shared"])]},
-    "C07": {"level": "exploration", "runs": [run("controller", "TestVerif_C07", shards=(4, 16), files=["box", "shared"])]},
+    "C06": {"level": "fault_enumeration", "runs": [run("controller", "TestVerif_C06", shards=(4, 16), files=["box", "shared"])],
+            "thresholds": {"quick": {"crashes-executed": 150, "crash-kind:before-status-write": 15, "crash-kind:after-status-write": 15, "crash-kind:in-service-reconcile": 60, "crash-kind:in-pool-reconcile": 25, "failed-writes-injected": 300, "recorded-services-that-must-keep-their-addresses": 90}},
+            "assumptions": ["the box reproduces controller-runtime semantics that matter (per-reconciler queues with de-duplication, one worker each, error -> retry, reload key) and the API server's optimistic concurrency on status writes; MetalLB-internal map iteration order is not controlled, so a replay may take another but equally valid path", "the reference model of allocation rules is written from the property statements (harness/lib/allocmodel.go)"]},
+    "C07": {"level": "exploration", "runs": [run("controller", "TestVerif_C07", shards=(4, 16), files=["box", "shared"])],
+            "thresholds": {"quick": {"quiescent-points-with-pending-service": 2500, "pending-with-empty-admissible-set": 6000}},
+            "assumptions": ["the box reproduces controller-runtime semantics that matter (per-reconciler queues with de-duplication, one worker each, error -> retry, reload key) and the API server's optimistic concurrency on status writes; MetalLB-internal map iteration order is not controlled, so a replay may take another but equally valid path", "the reference model of allocation rules is written from the property statements (harness/lib/allocmodel.go)", "sharing is demanded only for pairs every reading allows (both Cluster, or both Local with identical selectors)"]},
     "C08": {
         "level": "exploration",
         "runs": [run("config", "TestVerif_C08", shards=(4, 16))],
@@ -47,16 +57,24 @@ PROPS = {
     "C09": {"level": "exploration", "runs": [run("speaker", "TestVerif_C09", shards=(4, 16), files=["sbox", "shared"])]},
     "C10": {"level": "exploration", "runs": [run("speaker", "TestVerif_C10", shards=(4, 16), files=["c10", "direct", "shared"])]},
     "C11": {"level": "exploration", "runs": [run("allocator", "TestVerif_C11", shards=(4, 16), files=["alloc", "shared"]),
-                                             run("controller", "TestVerif_C11", shards=(4, 16), files=["box", "shared"])]},
+                                             run("controller", "TestVerif_C11", shards=(4, 16), files=["box", "shared"])],
+            "thresholds": {"quick": {"releases-probed": 1800, "rebuild-compared-with-shared-address": 1500, "counter-checks:astronomical-ipv6+other": 1500, "counter-checks:single-buggy-address": 3000, "counter-checks:tiny-block": 20000}},
+            "assumptions": ["the box reproduces controller-runtime semantics that matter (per-reconciler queues with de-duplication, one worker each, error -> retry, reload key) and the API server's optimistic concurrency on status writes; MetalLB-internal map iteration order is not controlled, so a replay may take another but equally valid path", "the reference model of allocation rules is written from the property statements (harness/lib/allocmodel.go)"]},
     "C12": {"level": "exploration", "runs": [run("speaker", "TestVerif_C12", shards=(4, 16), files=["c12", "direct", "shared"])]},
-    "C13": {"level": "exploration", "runs": [run("layer2", "TestVerif_C13", race=True, shards=(4, 16))]},
+    "C13": {"level": "exploration", "runs": [run("layer2", "TestVerif_C13", race=True, shards=(4, 16))],
+            "thresholds": {"quick": {"contended-operations": 10000, "contended-requests": 3500, "histories-with-contended-request": 1400, "frames-captured": 34000}},
+            "assumptions": ["porcupine v1.3.0 decides linearizability of the recorded histories; the sequential model is the harness's own", "NDP is covered through the shouldAnnounce decision only (no real ndpResponder on a sandbox interface)"]},
     "C14": {"level": "translation_validation", "runs": [run("frr", "TestVerif_C14", shards=(4, 16), files=["c14", "shared"])]},
     "C15": {"level": "translation_validation", "runs": [run("frrk8s", "TestVerif_C15", shards=(4, 16))]},
     "C16": {"level": "exploration", "runs": [run("native", "TestVerif_C16", shards=(4, 16), files=["c16", "shared"])]},
     "C17": {"level": "fault_enumeration", "runs": [run("native", "TestVerif_C17", race=True, shards=(4, 16), files=["c17", "shared"])]},
-    "C18": {"level": "exploration", "runs": [run("controllers", "TestVerif_C18", shards=(4, 16))]},
+    "C18": {"level": "exploration", "runs": [run("controllers", "TestVerif_C18", shards=(4, 16))],
+            "thresholds": {"quick": {"snapshots-3+-objects-per-kind": 200, "permutations-compared": 10000, "repetitions-compared": 3800, "snapshots-2+-pools-one-namespace": 200, "snapshots-2+-pools-one-namespace-by-selector": 90, "snapshots-accepted": 140, "reconciles": 12000, "handler-calls": 900}},
+            "assumptions": ["equality is reflect.DeepEqual, the reconcilers' own comparison; error texts are not compared"]},
     "C19": {"level": "fault_enumeration", "runs": [run("frr", "TestVerif_C19", race=True, shards=(4, 16)),
-                                                   run("controllers", "TestVerif_C19", race=True, shards=(2, 8))]},
+                                                   run("controllers", "TestVerif_C19", race=True, shards=(2, 8))],
+            "thresholds": {"quick": {"applies": 750, "failed_applies": 170, "coalesced_bursts": 60, "submissions_during_apply": 150, "k8s_applies": 300, "k8s_failed_applies": 40, "k8s_coalesced_bursts": 30, "k8s_submissions_during_apply": 60}},
+            "assumptions": ["bounded-progress restatement of eventually (100x the interval, starvation canary clean)", "reloadValidator's status file is not exercised; its re-apply requests are injected directly"]},
     "C20": {"level": "exploration", "runs": [run("controller", "TestVerif_C20", race=True, shards=(2, 16), files=["c20", "box", "shared"]),
                                              run("speaker", "TestVerif_C20", race=True, shards=(2, 16), files=["c20", "sbox", "shared"])]},
 }
